@@ -173,6 +173,85 @@ def stack_oracle(c, o):
     return None
 
 
+# ---------------------------------------------------------------- real CURVE / NOISE_XX handshakes between two engines
+_P = 2 ** 255 - 19
+
+
+def x25519_pub(sk):
+    """X25519(sk, 9) (RFC 7748), to give the two real engines key pairs that do / do not belong together"""
+    k = bytearray(sk)
+    k[0] &= 248
+    k[31] &= 127
+    k[31] |= 64
+    k = int.from_bytes(k, "little")
+    x1, x2, z2, x3, z3, swap = 9, 1, 0, 9, 1, 0
+    for t in reversed(range(255)):
+        kt = (k >> t) & 1
+        swap ^= kt
+        if swap:
+            x2, x3, z2, z3 = x3, x2, z3, z2
+        swap = kt
+        a = (x2 + z2) % _P
+        aa = a * a % _P
+        b = (x2 - z2) % _P
+        bb = b * b % _P
+        e = (aa - bb) % _P
+        c = (x3 + z3) % _P
+        d = (x3 - z3) % _P
+        da = d * a % _P
+        cb = c * b % _P
+        x3 = (da + cb) ** 2 % _P
+        z3 = x1 * (da - cb) ** 2 % _P
+        x2 = aa * bb % _P
+        z2 = e * (aa + 121665 * e) % _P
+    if swap:
+        x2, x3, z2, z3 = x3, x2, z3, z2
+    return list((x2 * pow(z2, _P - 2, _P) % _P).to_bytes(32, "little"))
+
+
+def keypair_cases(rng, n):
+    """two REAL engines (harness `pair`), mechanism CURVE or NOISE_XX: the client is configured with the server's true
+    public key, or with a key that is not the server's; every delivery schedule must end the same way"""
+    out = []
+    for i in range(n):
+        mech = ["curve", "noise"][i % 2]
+        sk_c = [rng.randrange(256) for _ in range(32)]
+        sk_s = [rng.randrange(256) for _ in range(32)]
+        sk_x = [rng.randrange(256) for _ in range(32)]
+        right = (i // 2) % 2 == 0
+        pk_for_client = x25519_pub(sk_s if right else sk_x)
+        a = E.mk_cfg(server=False, stype="PUSH", curve=(mech == "curve"), noise=(mech == "noise"))
+        b = E.mk_cfg(server=True, stype="PULL", curve=(mech == "curve"), noise=(mech == "noise"))
+        a[mech + "_sk"], a[mech + "_pk"] = sk_c, pk_for_client
+        b[mech + "_sk"] = sk_s
+        if mech == "noise" and rng.random() < 0.5:
+            b["noise_pk"] = x25519_pub(sk_c)             # the server may pin the client's static key as well
+        sched = [[rng.randrange(2), rng.choice([1, 3, 17, 64, 200, 10 ** 6])] for _ in range(rng.randrange(0, 30))]
+        out.append({"a": a, "b": b, "sched": sched, "mech": mech, "right": right})
+    return out
+
+
+def keypair_oracle(c, o):
+    rows = o["rows"]
+    if not rows or rows[0][0] != 70:
+        return "pair harness did not run: %s" % rows[:2]
+    cut = [i for i, r in enumerate(rows) if r[0] == 71][0]
+    app_a = [r for r in rows[1:cut] if r[0] in (5, 6, 8, 9)]
+    app_b = [r for r in rows[cut + 1:-1] if r[0] in (5, 6, 8, 9)]
+    done_a = any(r[0] == 5 for r in app_a)
+    done_b = any(r[0] == 5 for r in app_b)
+    if any(r[0] == 9 for r in app_a + app_b):
+        return "an engine panicked during a %s handshake" % c["mech"]
+    if c["right"]:
+        if not (done_a and done_b):
+            return "%s handshake between matching key pairs did not complete on both sides (client %s, server %s)" % (c["mech"], done_a, done_b)
+        return None
+    if done_a or done_b:
+        return ("%s handshake COMPLETED (client side %s, server side %s) although the client was configured with a public key that is "
+                "not the server's: the configured mechanism does not authenticate the peer" % (c["mech"], done_a, done_b))
+    return None
+
+
 def main(argv):
     tier, seed = C.tier_and_seed(argv)
     res = C.Result(PROP, tier, seed)
@@ -194,5 +273,21 @@ def main(argv):
     C.differential(res, PROP, "stack", scs, c04.stack_to_coq, E.REQ, "stack_mismatches",
                    "(fun '(c, p) => stack_model c p)", stack_oracle, nontrivial=lambda c, o: True,
                    theorems_note="C06_no_bypass (session level)", strip=c04.stack_strip, tag="stack")
+    # real-crypto gate: matching / non-matching key pairs between two real engines (property oracle; the mechanisms are
+    # opaque in the model: this is what stands behind its premise mech_sound)
+    kcs = keypair_cases(rng, 24 if tier == "quick" else 200)
+    kobs, klog = C.run_harness("pair", [{k: c[k] for k in ("a", "b", "sched")} for c in kcs], PROP, tag="keys")
+    if kobs is None or len(kobs) != len(kcs):
+        res.obligation(False, "key-pair scenarios could not run: " + str(klog)[-500:])
+    else:
+        for c, o in zip(kcs, kobs):
+            res.evaluations += 1
+            res.count("keys:%s:%s" % (c["mech"], "matching" if c["right"] else "foreign-server-key"))
+            res.nontrivial.add("keys:%d" % len(res.nontrivial))
+            msg = keypair_oracle(c, o)
+            if msg:
+                res.violation({"property": PROP, "kind": "implementation violates property oracle", "what": msg, "case": c,
+                               "impl_obs": o, "harness": "pair"}, found_input=True)
+                break
     return res.finish(assumptions=["CURVE and NOISE_XX are opaque in the model: an attacker without keys cannot complete them (mech_sound); "
                                    "for those configurations only the class of each action is compared (sends/errors without content)"])
